@@ -131,7 +131,7 @@ class Forest(object):
                 self.free.append(el)
                 self.all.append(el)
                 return Applied(k, el)
-            if k in ('add', 'assign', 'assign_idx'):
+            if k in ('add', 'assign', 'assign_idx', 'list_insert'):
                 parent = self.resolve(op['parent'], True)
                 if not self.free:
                     return Applied('skipped')
@@ -143,10 +143,34 @@ class Forest(object):
                 try:
                     if k == 'add':
                         parent.add(child)
+                    elif k == 'list_insert':
+                        # the child list's own insert(position, child)
+                        parent.children.insert(op['i'], child)
                     elif k == 'assign':
                         setattr(parent, child.name or 'X', child)
                     else:
                         getattr(parent, child.name or 'X')[op['i']] = child
+                except Exception as e:
+                    a.raised = e
+                return a
+            if k == 'list_setitem':
+                # children[i] = text / element: item assignment on the child list itself
+                parent = self.resolve(op['parent'], True)
+                kids = parent.children
+                if not len(kids) or type(parent).__name__ == 'SubComponent':
+                    return Applied('skipped')
+                i = op['i'] % len(kids)
+                old = kids[i]
+                cls = type(old).__name__
+                a = Applied('list_setitem:%s' % op['what'], parent)
+                try:
+                    if op['what'] == 'text' and cls != 'Group':
+                        kids[i] = ('%s|t%d' % (old.name, op['i'])) if cls == 'Segment' else 't%d' % op['i']
+                    else:
+                        new = getattr(core, cls)(old.name, version=parent.version, validation_level=parent.validation_level)
+                        self.all.append(new)
+                        a.objects = [new]
+                        kids[i] = new
                 except Exception as e:
                     a.raised = e
                 return a
@@ -584,6 +608,8 @@ def op_strategy():
         st.fixed_dictionaries({'op': st.just('assign'), 'parent': SHALLOW, 'child': st.integers(0, 9)}),
         st.fixed_dictionaries({'op': st.just('assign_idx'), 'parent': SHALLOW, 'child': st.integers(0, 9), 'i': st.integers(-1, 2)}),
         st.fixed_dictionaries({'op': st.just('reattach'), 'parent': SHALLOW, 'child': REF}),
+        st.fixed_dictionaries({'op': st.just('list_insert'), 'parent': SHALLOW, 'child': st.integers(0, 9), 'i': st.integers(-1, 4)}),
+        st.fixed_dictionaries({'op': st.just('list_setitem'), 'parent': NEAR, 'i': st.integers(0, 5), 'what': st.sampled_from(['text', 'element'])}),
         st.fixed_dictionaries({'op': st.just('assign_existing'), 'parent': NEAR, 'child': st.fixed_dictionaries({'r': st.integers(0, 2), 'p': st.lists(st.integers(0, 3), min_size=1, max_size=2)}),
                                'how': st.sampled_from(['name', 'index']), 'i': st.integers(-2, 2)}),
         st.fixed_dictionaries({'op': st.just('add_x'), 'parent': SHALLOW, 'k': st.integers(0, 30), 'foreign': st.sampled_from([False, False, False, True])}),
